@@ -179,7 +179,21 @@ def rechunk_plan_1d(n, c, t, M, irregular, mn):
     sx.require(ops_[-1].target_chunks[0] == t, "last-copy-does-not-end-at-target-chunking", f"{ops_[-1]}")
     for a, b in zip(ops_, ops_[1:]):
         sx.require(a.target_chunks[0] == b.source_chunks[0], "copy-ops-not-chained")
-    sx.require(out.chunksize[0] == t and out.shape[0] == n, "rechunk-result-has-wrong-chunks", f"{out.chunks}")
+    sx.require(out.shape[0] == n, "rechunk-result-has-wrong-shape", f"{out.shape}")
+    # the result is chunked EXACTLY as requested: every chunk boundary is a multiple of t and there are ceil(n/t) chunks
+    # (a rectilinear grid such as (30, 20, 10, 30, ..) starts with the right chunk and is still wrong)
+    pos = 0
+    for sz in out.chunks[0][:-1]:
+        pos = pos + sz
+        sx.require(sz == t, "rechunk-result-has-wrong-chunks", f"{out.chunks} requested {t}")
+    sx.require(len(out.chunks[0]) == -((-n) // t), "rechunk-result-has-wrong-chunks", f"{out.chunks} requested {t}")
+    sx.require(sx.sand(out.chunks[0][-1] >= 1, out.chunks[0][-1] <= t), "rechunk-result-has-wrong-chunks", f"{out.chunks} requested {t}")
+    # ... and so is the Zarr array that backs it
+    zc = out._zarray.chunks
+    if len(zc) and not isinstance(zc[0], (tuple, list)):
+        sx.require(zc[0] == t, "rechunk-result-is-backed-by-another-grid", f"backing chunks {zc} requested {t}")
+    else:
+        sx.require(all(bool(z == t) for z in zc[0][:-1]), "rechunk-result-is-backed-by-another-grid", f"backing chunks {zc} requested {t}")
     # the data part of every accepted copy stage fits the budget the planner derived from the spec:
     # (1 input + read copies) + 1 processing + (1 output + write copies) copies of the copy chunk
     for co in ops_:
